@@ -37,7 +37,14 @@
      [kind |-> "doc",   fEncrypted, fObfuscated \in BOOLEAN]        ([MS-DOC] FibBase, bits 0x0100, 0x8000)
      [kind |-> "odf",   enc \in {"utf8","utf16"}, prefix \in {"manifest","m"},
                         entries \in Seq([name : OdfNames, ed : BOOLEAN])]   ed = has an encryption-data child
-     [kind |-> "pdf",   alg \in PdfAlgs, userEmpty \in BOOLEAN, owner \in {"same", "distinct"}]
+     [kind |-> "pdf",   alg \in PdfAlgs, userEmpty \in BOOLEAN, owner \in {"same", "distinct"},
+                        flate \in BOOLEAN, slen, strlen \in {0, 1, 15}]
+                         flate / slen / strlen = layout of the plaintexts the security handler works on: page
+                         content streams Flate-compressed or not, their length mod 16, and the length mod 16 of
+                         the strings (/Info, page dictionary).  AES pads to the 16-byte block: residue 0 gives a
+                         full padding block, 15 a single padding byte.  The layout is an input dimension only:
+                         neither Class nor MustEqualPlain depends on it -- whatever the lengths, the
+                         empty-password document extracts like its original.
                          owner = "same": the owner password equals the user password (also what a writer
                          produces when no owner password is given); "distinct": another, non-empty one
      [kind |-> "zip",   members \in Seq([fc, fl, dir : BOOLEAN, err : {"none","unsupported","badcrc"}])]
